@@ -435,3 +435,53 @@ func literalElements(v ssa.Value) (elems []ssa.Value, zero bool, ok bool) {
 	}
 	return elems, int64(len(stored)) < at.Len(), true
 }
+
+// callsToDeep: call sites of the named function in fn and in the functions of
+// fn's own package that fn calls statically (one level: an extracted loop body
+// or helper).
+func callsToDeep(fn *ssa.Function, name string) []ssa.CallInstruction {
+	out := callsTo(fn, name)
+	seen := map[*ssa.Function]bool{fn: true}
+	allInstrs(fn, func(ins ssa.Instruction) {
+		if call, ok := ins.(ssa.CallInstruction); ok {
+			if g := call.Common().StaticCallee(); g != nil && g.Blocks != nil && g.Pkg == fn.Pkg && !seen[g] {
+				seen[g] = true
+				out = append(out, callsTo(g, name)...)
+			}
+		}
+	})
+	return out
+}
+
+// resolveParam: v is a parameter of a function of the module that has exactly
+// one static call site; returns the argument passed there (else v itself).
+func resolveParam(p *core.Program, v ssa.Value) ssa.Value {
+	prm, ok := guard.Strip(v).(*ssa.Parameter)
+	if !ok || prm.Parent() == nil {
+		return v
+	}
+	g := prm.Parent()
+	idx := -1
+	for i, q := range g.Params {
+		if q == prm {
+			idx = i
+		}
+	}
+	var actual ssa.Value
+	n := 0
+	for _, f := range p.SortedFuncs(core.Product) {
+		if f.Pkg != g.Pkg {
+			continue
+		}
+		allInstrs(f, func(ins ssa.Instruction) {
+			if call, ok := ins.(ssa.CallInstruction); ok && call.Common().StaticCallee() == g && idx >= 0 && idx < len(call.Common().Args) {
+				n++
+				actual = call.Common().Args[idx]
+			}
+		})
+	}
+	if n == 1 && actual != nil {
+		return actual
+	}
+	return v
+}
